@@ -945,3 +945,4 @@ MANIFEST = {
     "technique": "Lean 4 theorems (uniform kernel, product form, generated constant obligations) + Float transcription tied by "
                  "differential correspondence + reference tests for the correlated Gaussian",
 }
+MANIFEST["note"] += " " + py2lean.manifest_note("kernels")
